@@ -44,8 +44,23 @@ def execSched (guard : SplitGuard) (s : State) (pending : List Op) (picks : List
 theorem execSched_eq_run (guard : SplitGuard) (s : State) (pending : List Op) (picks : List Nat) :
     execSched guard s pending picks = run guard s (pickOrder pending picks) := rfl
 
+/-- What modelling a request as ONE atomic step of `execSched` rests on, as far as the source can show it (regenerated tables
+    of Gen/LockSites.lean): every Lock() of the request path is released on every path and is not held across a wait for the
+    consumer; every access to the state a subscriber's requests share that an HTTP handler can reach is made while the
+    subscriber's mutex is held; the global sequence counters are only ever advanced, atomically or under the context lock. -/
+def AtomicSteps : Prop :=
+  Chf.Gen.lockSites.all Chf.LockDiscipline.LockSite.ok = true ∧
+  Chf.Gen.lockSites.all Chf.LockDiscipline.LockSite.prompt = true ∧
+  Chf.LockDiscipline.stateAccessOK Chf.Gen.fnFacts Chf.Gen.callFacts = true ∧
+  Chf.Gen.counterSites.all (fun c => decide (c.kind ≤ 1)) = true
+
+/-- … and it holds of the working tree (each conjunct by `decide` over the regenerated table) -/
+theorem C09_atomic_steps : AtomicSteps :=
+  ⟨Chf.Props.C11.sites_ok, Chf.Props.C11.sites_prompt, Chf.Props.C11.state_access_under_lock,
+   Chf.Props.C10.counters_only_increase.1⟩
+
 /-- C09 (accounting): whatever the schedule, balance + reservation = initial + credits − rated usage -/
-theorem C09_identity_every_schedule (guard : SplitGuard) (supi : Bytes) (rg : Int) (hrg : int32 rg)
+theorem C09_identity_every_schedule (_atomic : AtomicSteps) (guard : SplitGuard) (supi : Bytes) (rg : Int) (hrg : int32 rg)
     (s : State) (pending : List Op) (picks : List Nat)
     (hok : Chf.Props.C01.runOKb guard s (pickOrder pending picks) = true) :
     total (execSched guard s pending picks) supi rg =
@@ -53,7 +68,7 @@ theorem C09_identity_every_schedule (guard : SplitGuard) (supi : Bytes) (rg : In
   Chf.Props.C01.C01 guard supi rg hrg (pickOrder pending picks) s hok
 
 /-- C09 (references): whatever the schedule, the next reference handed out is not in use -/
-theorem C09_unique_refs_every_schedule (guard : SplitGuard) (pending : List Op) (picks : List Nat)
+theorem C09_unique_refs_every_schedule (_atomic : AtomicSteps) (guard : SplitGuard) (pending : List Op) (picks : List Nat)
     (accts : Abmf.Store) (tariffs : List Rating.Tariff) (r : Req) (nf : Bytes) (u : Ue)
     (hu : u ∈ (execSched guard { accts := accts, tariffs := tariffs } pending picks).ues) :
     sessionId r.supi nf (execSched guard { accts := accts, tariffs := tariffs } pending picks).sessionSeq ∉ keysOf u :=
@@ -66,6 +81,31 @@ theorem C09_noninterference (guard : SplitGuard) (s : State) (op : Op) (supi : B
     (hre : ∀ info ueId rgStr, op = .recharge info → splitUnderscore info = [ueId, rgStr] → ueId ≠ supi) :
     findUe (step guard s op).1.ues supi = findUe s.ues supi :=
   Chf.Props.C02.C02_other_subscribers_untouched guard s op supi hne hre
+
+/-- C09 for the working tree: the every-schedule statements with the atomic-step hypothesis discharged from the regenerated
+    tables.  When a change to the code breaks one of the tables' obligations, these no longer check. -/
+theorem C09_here (guard : SplitGuard) (supi : Bytes) (rg : Int) (hrg : int32 rg) (s : State) (pending : List Op)
+    (picks : List Nat) (hok : Chf.Props.C01.runOKb guard s (pickOrder pending picks) = true) :
+    total (execSched guard s pending picks) supi rg =
+      (total s supi rg).map (fun m => m + Chf.Props.C01.netRun guard supi rg s (pickOrder pending picks)) :=
+  C09_identity_every_schedule C09_atomic_steps guard supi rg hrg s pending picks hok
+
+theorem C09_unique_refs_here (guard : SplitGuard) (pending : List Op) (picks : List Nat)
+    (accts : Abmf.Store) (tariffs : List Rating.Tariff) (r : Req) (nf : Bytes) (u : Ue)
+    (hu : u ∈ (execSched guard { accts := accts, tariffs := tariffs } pending picks).ues) :
+    sessionId r.supi nf (execSched guard { accts := accts, tariffs := tariffs } pending picks).sessionSeq ∉ keysOf u :=
+  C09_unique_refs_every_schedule C09_atomic_steps guard pending picks accts tariffs r nf u hu
+
+/-- C09 (no data race on subscriber state): under every scheduler, a thread that keeps the lock discipline touches the shared
+    state only while it is the holder of the mutex (mutual-exclusion model), and the request path keeps that discipline
+    (no chain of unlocked calls from a handler to an unguarded access) -/
+theorem C09_no_unsynchronised_access :
+    (∀ (prog : Nat → List Chf.LockDiscipline.Ev), (∀ i, Chf.LockDiscipline.guarded false (prog i) = true) →
+      ∀ sched, ∀ e ∈ (Chf.LockDiscipline.Sys.run { prog := prog } sched).log, e.2 = some e.1) ∧
+    (∀ r g, r ∈ Chf.Gen.fnFacts → g ∈ Chf.Gen.fnFacts → r.root = true → g.relies = true →
+      ¬ Chf.LockDiscipline.UnheldPath Chf.Gen.callFacts r.id g.id) :=
+  ⟨fun prog hg sched => Chf.Props.C11.C11_mutual_exclusion prog hg sched,
+   fun r g hr hg hroot hrel => Chf.Props.C11.C11_no_unguarded_access r g hr hg hroot hrel⟩
 
 /-- C09 (no crash at the API): every request of every schedule is answered 2xx or 4xx -/
 theorem C09_status (guard : SplitGuard) (s : State) (op : Op) (h : ∀ a b c, op ≠ .credit a b c) :
